@@ -99,3 +99,38 @@ def nodes_containing(cfg, pred):
             if pred(x):
                 out.append((n, x))
     return out
+
+
+def short_circuit_facts(root, target):
+    """Facts that hold when `target` (a sub-expression of `root`) is evaluated, by short-circuit evaluation alone:
+    the earlier operands of every enclosing `and` were true, those of every enclosing `or` false; inside the body /
+    orelse of a conditional expression its test was true / false."""
+    out = set()
+
+    def rec(e):
+        if e is target:
+            return True
+        if isinstance(e, ast.BoolOp):
+            for j, v in enumerate(e.values):
+                if rec(v):
+                    for prev in e.values[:j]:
+                        out.update(split_test(prev, isinstance(e.op, ast.And)))
+                    return True
+            return False
+        if isinstance(e, ast.IfExp):
+            if rec(e.test):
+                return True
+            if rec(e.body):
+                out.update(split_test(e.test, True))
+                return True
+            if rec(e.orelse):
+                out.update(split_test(e.test, False))
+                return True
+            return False
+        for c in ast.iter_child_nodes(e):
+            if rec(c):
+                return True
+        return False
+
+    rec(root)
+    return out
